@@ -371,7 +371,23 @@ func ParseRealtime(content []byte, opts *ParseRealtimeOptions) (*Realtime, error
 		return result.Trips[i].ID.Less(result.Trips[j].ID)
 	})
 
-	for vehicleID, vehicle := range vehiclesByID {
+	// Map iteration order is random; order the vehicles by ID to make the output deterministic.
+	vehicleIDs := make([]VehicleID, 0, len(vehiclesByID))
+	for vehicleID := range vehiclesByID {
+		vehicleIDs = append(vehicleIDs, vehicleID)
+	}
+	sort.Slice(vehicleIDs, func(i, j int) bool {
+		a, b := vehicleIDs[i], vehicleIDs[j]
+		if a.ID != b.ID {
+			return a.ID < b.ID
+		}
+		if a.Label != b.Label {
+			return a.Label < b.Label
+		}
+		return a.LicensePlate < b.LicensePlate
+	})
+	for _, vehicleID := range vehicleIDs {
+		vehicle := vehiclesByID[vehicleID]
 		if tripID, ok := vehicleIDToTripID[vehicleID]; ok {
 			vehicle.Trip = tripsById[tripID]
 		}
